@@ -50,6 +50,12 @@ def random_text(rng, alphabet, maxlen=12):
                                    rng.randint(0x10000, 0x10ffff)])) for _ in range(rng.randint(1, 8)))
 
 
+# regexes only the fancy engine compiles (look-around, backreference, atomic group, possessive quantifier): with the plain
+# engine selected the compiler must REJECT the grammar - an accepted one makes the generated `Lazy<Regex>` unwrap panic at the
+# first parse (C15-N1) - and with fancy_regex(true) it must accept it
+FANCY_ONLY = ["[a-z]+(?=\\d)", "(?<=x)y+", "(?!ab)[a-c]+", "([a-c])\\1", "(?>a+)b", "a++b", "(?<!q)z"]
+
+
 LR_CERTS = ["cert lr-total", "cert terminating", "cert noshiftstop"]
 
 
@@ -127,6 +133,14 @@ def gen(rng, tier):
             c.empty_regex = name == "emptyre"
             c.max_trees = 0
             (lr if algo == "LR" else glr).append(c)
+    for k, rx in enumerate(FANCY_ONLY):
+        text = f"S: W+;\nterminals\nW: /{rx}/;\n" if k % 2 else f"S: W N | N;\nterminals\nN: /\\d+/;\nW: /{rx}/;\n"
+        for algo, tt in (("LR", "LALR_PAGER"), ("GLR", "LALR_RN")):
+            for fancy in "01":
+                inputs = [(algo, "0", t, {}) for t in ("", "a1", "xy", "cab", "aab", "z", "aa")]
+                c = lf.Case(text, [algo, tt] + ["-"] * 7 + [fancy], inputs, gram=None, tag="corpus:fancy-only-" + fancy)
+                c.max_trees = 0
+                (lr if algo == "LR" else glr).append(c)
     return lr, glr
 
 
@@ -207,6 +221,21 @@ def check(rep, lr, glr, proofs_ok):
         if c.tag in ("corpus:calc", "corpus:json", "corpus:ident", "corpus:layout"):
             rep.oblige(f"Cert.terminating holds on the {c.tag} table", ex[1] == "1", c.tag)
         return bad
+    for c in lr + glr:
+        ans = getattr(c, "dump_ans", "") or ""
+        if c.tag.startswith("corpus:fancy-only"):
+            rep.count("regex_engine:" + c.tag[-1] + ":" + " ".join(ans.split(" ")[:3])[:40])
+        if ans.startswith("dump loaderr") and len(rep.violations) < 3:
+            # the compiler accepted the grammar, the recognizers cannot be built with the engine the generated parser uses
+            try:
+                why = bytes.fromhex(ans.split(" ")[2]).decode(errors="replace")[:200]
+            except Exception:
+                why = ans[:200]
+            rep.violation(dict(c.describe(), kind="impl!=oracle", why="the compiler accepts the grammar but a terminal's regex cannot be compiled "
+                               "by the regex engine the generated parser will use (fancy_regex=" + str(c.settings[9]) + "): the generated "
+                               "recognizer panics at the first parse: " + why))
+        elif c.tag == "corpus:fancy-only-1" and c.dump is None:
+            rep.violation(dict(c.describe(), kind="impl!=oracle", why="fancy_regex(true): a regex of the fancy engine is rejected: " + ans[:200]))
     lf.evaluate(rep, lr, orc, proofs_ok, PROP_MODULE, in_scope=scope, known_class=known_class)
     lf.evaluate(rep, glr, oracle, True, PROP_MODULE, compare_model=False, known_class=known_class)
     for c in lr:
